@@ -24,6 +24,9 @@ def glue_requests():
             ("params empty", {}),
             ("metadata that is not a TLV stream", W.request(W.payload(raw_meta=bytes([0xfd, 0x00])), W.phash(0), 1000, 1100, 100, 2, forward=1000, total=1000)),
             ("metadata with an invoice that does not parse", W.request(W.payload(invoice="lnbc1notaninvoice"), W.phash(0), 1000, 1100, 100, 3, forward=1000, total=1000))]
+    # invoice records that are no invoice at all (empty, one byte, a multi-byte character first)
+    for i, sv in enumerate((b"", b"l", "\u20acnbc1".encode(), b"\xff\xfe")):
+        reqs.append(("metadata with the invoice record %s" % (sv.hex() or "(empty)"), W.request(W.payload(raw_meta=W.tlv([(33001, sv)])), W.phash(0), 1000, 1100, 100, 4 + i, forward=1000, total=1000)))
     return reqs
 
 def glue_check(o):
